@@ -64,15 +64,32 @@ func c01genOps(r *vlib.Rng, cs *c01case) {
 				out = ""
 			}
 			cs.cmds[ci].out = out
+			var keep []int
+			for _, c := range cs.cmds[ci].cuts {
+				if c <= len(out) {
+					keep = append(keep, c)
+				}
+			}
+			cs.cmds[ci].cuts = keep
 		}
 	}
 	prompt := func() c01op { return c01op{kind: 'P', stopAt: -1, batch: -1} }
 	if !c01apiBatch(cs.api) {
-		prevEager := false
-		for ci := range cs.cmds {
-			if !prevEager && r.Chance(1, 5) {
+		// any kind of operation before any other: a GetPrompt or an empty sequence may stand in every
+		// gap (also right after an eager send, whose unread answer then serves the GetPrompt)
+		gap := func() {
+			if r.Chance(1, 4) {
 				cs.ops = append(cs.ops, prompt())
 			}
+			if cs.api != c01apiChannel && r.Chance(1, 10) {
+				cs.ops = append(cs.ops, c01op{kind: 'N', stopAt: -1, batch: -1, nkind: r.Intn(2)})
+			}
+		}
+		if cs.promptLines && r.Chance(1, 2) {
+			cs.ops = append(cs.ops, prompt()) // the session starts by asking for the prompt
+		}
+		for ci := range cs.cmds {
+			gap()
 			op := c01op{kind: 'S', ci: ci, stopAt: -1, batch: -1}
 			switch k := r.Intn(10); {
 			case k < 2:
@@ -85,12 +102,9 @@ func c01genOps(r *vlib.Rng, cs *c01case) {
 				op.kind = 'E'
 				shorten(ci)
 			}
-			prevEager = op.kind == 'E'
 			cs.ops = append(cs.ops, op)
 		}
-		if !prevEager && r.Chance(1, 5) {
-			cs.ops = append(cs.ops, prompt())
-		}
+		gap()
 		return
 	}
 	// batch flavours: [P] [N] batch0 [P] [N] batch1 [P]; one option set for the whole session's batches
@@ -106,7 +120,7 @@ func c01genOps(r *vlib.Rng, cs *c01case) {
 		split = r.Range(1, len(cs.cmds)-1)
 	}
 	between := func() {
-		if !eager && r.Chance(1, 4) {
+		if r.Chance(1, 4) || (cs.promptLines && len(cs.ops) == 0 && r.Chance(1, 2)) {
 			cs.ops = append(cs.ops, prompt())
 		}
 		if r.Chance(1, 6) {
@@ -269,6 +283,7 @@ func runC01case(cs c01case) (o c01obs) {
 			lineOps = append(lineOps, op)
 		}
 	}
+	var wantCut []int // emitted-byte offsets at which a transport read must end (pipe lock held)
 	k := 0
 	dev.Handle = func(_ *sim.CLI, line string) string {
 		cur = cs.prompt
@@ -288,6 +303,9 @@ func runC01case(cs c01case) (o c01obs) {
 				cur = facts.C01Interim[op.stopAt].Text
 			}
 			if c01isSend(op.kind) {
+				for _, c := range cs.cmds[op.ci].cuts {
+					wantCut = append(wantCut, dev.Emitted+len(cs.nl)+c)
+				}
 				return cs.cmds[op.ci].out
 			}
 		}
@@ -301,6 +319,25 @@ func runC01case(cs c01case) (o c01obs) {
 		dev.Seg = sim.SegFixed(cs.segK)
 	case 3, 4:
 		dev.Seg = func(avail int) int { return 1 + sr.Intn(avail+cs.segK)%(cs.segK*3) }
+	}
+	if cs.promptLines {
+		// whatever the segmentation class: a read ends exactly at every requested offset
+		inner := dev.Seg
+		dev.Seg = func(avail int) int {
+			n := avail
+			if inner != nil {
+				n = inner(avail)
+			}
+			if n < 1 {
+				n = 1
+			}
+			for _, c := range wantCut {
+				if c > dev.Delivered && dev.Delivered+n > c {
+					n = c - dev.Delivered
+				}
+			}
+			return n
+		}
 	}
 	dev.ReadPause = time.Duration(cs.pauseUs) * time.Microsecond
 	dev.Start()
@@ -385,12 +422,12 @@ func runC01case(cs c01case) (o c01obs) {
 	}
 	many := func(cmds []string, nkind int, opts []util.Option) (*response.MultiResponse, error) {
 		switch cs.api {
-		case c01apiCommands:
+		case c01apiCommands, c01apiCommand:
 			if nkind == 1 {
 				cmds = []string{}
 			}
 			return gd.SendCommands(cmds, opts...)
-		case c01apiNetCommands:
+		case c01apiNetCommands, c01apiNetCommand:
 			if nkind == 1 {
 				cmds = []string{}
 			}
@@ -720,4 +757,17 @@ func c01InterimDiff(c *ctx) {
 		}
 	}
 	c.res.Distribution["interim-pattern-diff"] = len(qs)
+}
+
+// c01histKind names an operation for the history counts.
+func c01histKind(cs c01case, op c01op) string {
+	switch {
+	case op.kind == 'P' && op.implicit:
+		return "P(network)"
+	case op.kind == 'I' && op.stopAt >= 0:
+		return "I(stopped)"
+	case c01isSend(op.kind) && cs.cmds[op.ci].cmd == "":
+		return string(op.kind) + "(empty)"
+	}
+	return string(op.kind)
 }
